@@ -46,11 +46,26 @@ func c16Replies(c *vk.Ctx) {
 			jobs = append(jobs, Job{Harness: "StorageSeq", Bound: 0, Delay: true, Params: map[string]int{"store": 1, "L": L, "code": code, "step": 1}})
 		}
 	}
-	// sqlite pipelined: replies in order, one per request, whatever the insertion goroutine does
-	for code := 0; code < pow(harness.C16Msgs, 2); code++ {
-		jobs = append(jobs, Job{Harness: "StorageSeq", Bound: vk.Pick(c, 1, 3), Delay: true, BudgetS: 60, Params: map[string]int{"store": 1, "L": 2, "code": code}})
+	// sqlite pipelined: replies in order, one per request, whatever the insertion goroutine does (every
+	// schedule: the writer, the session, the reader and the bulk-insert goroutine with its 2-slot queue)
+	for L := 2; L <= 3; L++ {
+		for code := 0; code < pow(harness.C16Msgs, L); code++ {
+			jobs = append(jobs, Job{Harness: "StorageSeq", Bound: -1, BudgetS: 60, FallbackDelay: 3, Params: map[string]int{"store": 1, "L": L, "code": code}})
+		}
 	}
-	c.P.Rule = "E1: every client message sequence up to length 3/4 over 13 messages (EVENT new / same again / newer version / older version / deletion request / ephemeral; REQ all / filtered / limit 1 / with an undecodable id, for which the SQLite query fails; COUNT; CLOSE; AUTH) through the real CacheHandler.ServeNostr (canonical schedule; all schedules for every length-2 sequence and a 7-message core at length 3) and up to length 2/3 through the real SQLite handler (in-memory database, stepwise with quiescence after each message; pipelined with a delay bound); oracle: the reply stream is the concatenation, in request order, of the per-request replies"
+	if c.Thorough() {
+		for _, a := range core {
+			for _, b := range core {
+				for _, d := range core {
+					for _, e := range core {
+						m := harness.C16Msgs
+						jobs = append(jobs, Job{Harness: "StorageSeq", Bound: -1, BudgetS: 120, FallbackDelay: 3, Params: map[string]int{"store": 1, "L": 4, "code": a + m*b + m*m*d + m*m*m*e}})
+					}
+				}
+			}
+		}
+	}
+	c.P.Rule = "E1: every client message sequence up to length 3/4 over 13 messages (EVENT new / same again / newer version / older version / deletion request / ephemeral; REQ all / filtered / limit 1 / with an undecodable id, for which the SQLite query fails; COUNT; CLOSE; AUTH) through the real CacheHandler.ServeNostr (canonical schedule; all schedules for every length-2 sequence and a 7-message core at length 3) and up to length 2/3 through the real SQLite handler (in-memory database, stepwise with quiescence after each message; pipelined: every schedule of writer, session, reader and the bulk-insert goroutine behind its 2-slot queue, for all sequences of length 2 and 3, and of length 4 over the core in the thorough tier); oracle: the reply stream is the concatenation, in request order, of the per-request replies"
 	res := runJobs(c, jobs)
 	for i, r := range res {
 		if i%700 == 0 {
